@@ -3,6 +3,9 @@ use crate::tm::*;
 use std::collections::BTreeMap;
 
 pub const P: u32 = 5;
+/// the summation binder ranges over the index set {0, .., SUM_RANGE-1} of the field (a sum over the whole field would make
+/// almost every polynomial sum vanish, which would hide wrong e-nodes)
+pub const SUM_RANGE: u32 = 2;
 
 pub fn eval(t: &Tm, env: &BTreeMap<Name, u32>, p: u32) -> u32 {
     let kid = |i: usize| -> (&Vec<Name>, &Tm) { t.kids()[i] };
@@ -21,7 +24,7 @@ pub fn eval(t: &Tm, env: &BTreeMap<Name, u32>, p: u32) -> u32 {
         "sum" => {
             let (bs, b) = kid(0);
             let mut s = 0;
-            for v in 0..p {
+            for v in 0..SUM_RANGE.min(p) {
                 let mut e = env.clone();
                 e.insert(bs[0], v);
                 s = (s + eval(b, &e, p)) % p;
